@@ -10,7 +10,10 @@ import (
 	"os"
 	"runtime/debug"
 	"strings"
+	"time"
 )
+
+const caseTimeout = 4 * time.Second
 
 type J = map[string]interface{}
 
@@ -48,8 +51,18 @@ func execLoop() {
 			if jerr := dec.Decode(&c); jerr != nil {
 				writeLine(out, J{"res": J{"harness": "bad case json: " + jerr.Error()}})
 			} else {
-				res := runCase(c)
-				writeLine(out, J{"i": c["i"], "res": res, "std": stdFor(c, res)})
+				done := make(chan interface{}, 1)
+				go func() { done <- runCase(c) }()
+				var res interface{}
+				select {
+				case res = <-done:
+				case <-time.After(caseTimeout):
+					// the call does not return (or is far too slow): report and die, the parent restarts us
+					writeLine(out, J{"i": c["i"], "res": J{"fatal": "timeout: the call did not return within " + caseTimeout.String()}})
+					out.Flush()
+					os.Exit(3)
+				}
+				writeLine(out, J{"i": c["i"], "res": res})
 			}
 			out.Flush()
 		}
